@@ -74,6 +74,7 @@ struct Interp {
     std::vector<SFrame> lastColModel;               // content intended for each frame of lastCol (recorded while it was built)
     std::vector<ezc3d::DataNS::Frame> lastCol;       // caller's column vector of the last pcol/acol (kept for reuse)
     std::string dir;                                 // scratch directory (must exist)
+    std::string propId;                              // property whose check runs the history (decides which known-finding classes are excluded)
     std::string lastSavePath;
     std::vector<uint8_t> fileBytes;                  // bytes used by the last 'load' op
     Listener *L = nullptr;
